@@ -358,8 +358,317 @@ theorem dump_entries (rs : List Rec) (hrs : ∀ r ∈ rs, r.OK) :
         simp only [htag, n1, n2, n3, if_false, if_true, hstep, this, Rec.entry, pathsMatch]
         simp
 
+/-! ### nothing but the ASCII hex digits counts as a digit -/
+
+/-- a character denotes a nibble exactly when it is one of `0-9`, `A-F`, `a-f` -/
+theorem hexDigitVal_isSome_iff (c : Char) :
+    (hexDigitVal c).isSome ↔
+      ((48 ≤ c.toNat ∧ c.toNat ≤ 57) ∨ (65 ≤ c.toNat ∧ c.toNat ≤ 70) ∨ (97 ≤ c.toNat ∧ c.toNat ≤ 102)) := by
+  unfold hexDigitVal
+  dsimp only
+  split
+  · simp; omega
+  · split
+    · simp; omega
+    · split
+      · simp; omega
+      · simp; omega
+
+/-- **No character outside ASCII is ever taken for a digit** (whatever its low byte, its case folding
+    or its Unicode class): such a character outside a comment, unless it is whitespace, makes the call fail. -/
+theorem hex_rejects_non_ascii (x : List Char) (c : Char) (hc : c ∈ significant false x) (h : 128 ≤ c.toNat) :
+    parseAnnotatedHex x = none := by
+  apply hex_rejects x c hc
+  cases hv : hexDigitVal c with
+  | none => rfl
+  | some v =>
+    have := (hexDigitVal_isSome_iff c).mp (by simp [hv])
+    omega
+
+/-- the same three statements for the bytes of a Go string, well-formed UTF-8 or not (`goRunes`): a byte
+    that is not part of a well-formed sequence is a foreign character like any other -/
+theorem hex_bytes_sound (x b : Bytes) (h : parseAnnotatedHexBytes x = some b) :
+    decodeHex (significant false (goRunes x)) = some b := hex_sound _ b h
+
+theorem hex_bytes_rejects (x : Bytes) (c : Char) (hc : c ∈ significant false (goRunes x)) (hbad : hexDigitVal c = none) :
+    parseAnnotatedHexBytes x = none := hex_rejects _ c hc hbad
+
+theorem hex_bytes_complete (x : Bytes) (h : ∀ l ∈ splitLines (goRunes x), (decodeHex (sigLine l)).isSome) :
+    parseAnnotatedHexBytes x = decodeHex (significant false (goRunes x)) ∧ (parseAnnotatedHexBytes x).isSome :=
+  hex_complete _ h
+
+theorem runeError_not_hex : hexDigitVal runeError = none := by decide
+
+/-! ### protodump recurses into exactly the requested paths
+
+  `DTree` is a message the way a reference parser sees it once it has been told which fields hold
+  messages: leaves are records, `msg` is a length-delimited field whose payload is again a sequence of
+  trees.  `Fits` ties a tree to the path sets: a `msg` node sits at a path that is requested for expansion
+  (and not as a string), a length-delimited leaf sits at a path that is requested as a string or not
+  requested for expansion.  For every such tree, of any depth and with any sibling order, the dump is the
+  reference rendering `rendersD`: one entry per field in wire order, the requested strings as strings,
+  and below each requested path - and nowhere else - the entries of the nested message, one level deeper. -/
+
+inductive DTree where
+  | leaf (r : Rec)
+  | msg (tag : Nat) (kids : List DTree)
+
+mutual
+def DTree.wire : DTree → Bytes
+  | .leaf r => r.wire
+  | .msg t kids => encTag t wtLen ++ (encVarint (wiresD kids).length ++ wiresD kids)
+def wiresD : List DTree → Bytes
+  | [] => []
+  | k :: ks => k.wire ++ wiresD ks
+end
+
+mutual
+def DTree.size : DTree → Nat
+  | .leaf _ => 1
+  | .msg _ kids => 1 + sizesD kids
+def sizesD : List DTree → Nat
+  | [] => 0
+  | k :: ks => k.size + sizesD ks
+end
+
+/-- a length-delimited leaf is not at a path that gets expanded -/
+def leafFits (expand strs : List (List Nat)) (parent : List Nat) : Rec → Prop
+  | .len t _ => pathsMatch strs (parent ++ [t]) = true ∨ pathsMatch expand (parent ++ [t]) = false
+  | _ => True
+
+mutual
+def DTree.Fits (expand strs : List (List Nat)) : List Nat → DTree → Prop
+  | parent, .leaf r => r.OK ∧ leafFits expand strs parent r
+  | parent, .msg t kids => 1 ≤ t ∧ t ≤ maxTagValue ∧ (wiresD kids).length ≤ maxFieldLen ∧
+      pathsMatch strs (parent ++ [t]) = false ∧ pathsMatch expand (parent ++ [t]) = true ∧
+      FitsAll expand strs (parent ++ [t]) kids
+def FitsAll (expand strs : List (List Nat)) : List Nat → List DTree → Prop
+  | _, [] => True
+  | parent, k :: ks => k.Fits expand strs parent ∧ FitsAll expand strs parent ks
+end
+
+/-- the entry of a record when `strs` are the paths requested as strings -/
+def Rec.entryWith (strs : List (List Nat)) (parent : List Nat) (indent : Nat) : Rec → Bytes
+  | .len t b =>
+    asciiBytes s!"{indentStr indent}tag: {t}, wire type: {wtName wtLen}\n" ++
+      (asciiBytes s!"{indentStr indent}  length: {b.length}\n" ++
+       (if pathsMatch strs (parent ++ [t]) then
+          asciiBytes s!"{indentStr indent}  string: " ++ b ++ asciiBytes "\n"
+        else asciiBytes (s!"{indentStr indent}  [" ++ ",".intercalate (b.map byteHex) ++ "]\n")))
+  | r => Rec.entry indent r
+
+mutual
+/-- the reference rendering -/
+def DTree.render (strs : List (List Nat)) : List Nat → Nat → DTree → Bytes
+  | parent, indent, .leaf r => Rec.entryWith strs parent indent r
+  | parent, indent, .msg t kids =>
+    Rec.entry indent (.len t (wiresD kids)) ++ rendersD strs (parent ++ [t]) (indent + 1) kids
+def rendersD (strs : List (List Nat)) : List Nat → Nat → List DTree → Bytes
+  | _, _, [] => []
+  | parent, indent, k :: ks => k.render strs parent indent ++ rendersD strs parent indent ks
+end
+
+theorem DTree.size_pos (k : DTree) : 0 < k.size := by cases k <;> simp [DTree.size] <;> omega
+
+mutual
+theorem DTree.size_le_wire : ∀ k : DTree, k.size ≤ k.wire.length
+  | .leaf r => by
+    have := List.length_pos_iff.mpr (Rec.wire_ne_nil r)
+    simp [DTree.size, DTree.wire]; omega
+  | .msg t kids => by
+    have h1 := sizesD_le_wires kids
+    have h2 : 0 < (encTag t wtLen).length := List.length_pos_iff.mpr (by simp [encTag, encVarint_ne_nil])
+    simp [DTree.size, DTree.wire]; omega
+theorem sizesD_le_wires : ∀ ks : List DTree, sizesD ks ≤ (wiresD ks).length
+  | [] => by simp [sizesD, wiresD]
+  | k :: ks => by
+    have h1 := DTree.size_le_wire k
+    have h2 := sizesD_le_wires ks
+    simp [sizesD, wiresD]; omega
+end
+
+theorem Dec.new_at (b : Bytes) : (Dec.new b).At [] b := ⟨by simp [Dec.new], rfl⟩
+
+/-- **protodump recurses into exactly the requested paths**, at every depth: for every tree that fits
+    the path sets the dump loop prints the reference rendering and ends without an error. -/
+theorem dump_tree (expand strs : List (List Nat)) :
+    ∀ (fuel : Nat) (ks : List DTree) (d : Dec) (pre : Bytes) (parent : List Nat) (indent : Nat),
+      FitsAll expand strs parent ks → sizesD ks < fuel → d.At pre (wiresD ks) →
+      dumpLoop expand strs fuel d parent indent = (rendersD strs parent indent ks, .ok) := by
+  intro fuel
+  induction fuel with
+  | zero => intro ks d pre parent indent _ hf _; omega
+  | succ fuel ih =>
+    intro ks d pre parent indent hfit hf h
+    cases ks with
+    | nil =>
+      have : ¬ d.off < d.len := by rw [h.len, h.off]; simp [wiresD]
+      simp [dumpLoop, this, rendersD]
+    | cons k rs =>
+      obtain ⟨hk, hrs⟩ : k.Fits expand strs parent ∧ FitsAll expand strs parent rs := by
+        simpa [FitsAll] using hfit
+      have hsz : k.size + sizesD rs < fuel + 1 := by simpa [sizesD] using hf
+      have hkpos := DTree.size_pos k
+      have hmore : d.off < d.len := by
+        have h1 := DTree.size_le_wire k
+        rw [h.len, h.off]; simp [wiresD]; omega
+      have ih' := fun d2 pre2 => ih rs d2 pre2 parent indent hrs (by omega)
+      rw [dumpLoop]
+      simp only [hmore, not_true_eq_false, if_false]
+      cases k with
+      | leaf r =>
+        obtain ⟨hok, hleaf⟩ : r.OK ∧ leafFits expand strs parent r := by simpa [DTree.Fits] using hk
+        simp only [wiresD, DTree.wire] at h
+        simp only [rendersD, DTree.render]
+        cases r with
+        | varint t v =>
+          obtain ⟨h1, ht, hv⟩ := hok
+          simp only [Rec.wire, Rec.tag, Rec.wt, Rec.body, Rec.chunk, List.append_assoc] at h
+          have htag := Dec.tag_at h h1 ht (by decide)
+          have hAt := h.afterTag
+          have hval := Dec.scalar_at hAt (encVarint_ne_nil v) elInt64 .int (toI64 v) (elInt64_any v hv _)
+          have hAt2 := hAt.advance
+          have := ih' _ _ hAt2
+          have hstep : Dec.step (d.afterTag (encTag t wtVarint).length) .int64 = ({ d.afterTag (encTag t wtVarint).length with off := (d.afterTag (encTag t wtVarint).length).off + (encVarint v).length }, .ok (.int (toI64 v)), 0) := by
+            show withAlloc (Dec.scalar _ elInt64 .int) 0 = _
+            rw [hval]; rfl
+          simp only [htag, if_true, hstep, this, Rec.entryWith, Rec.entry]
+        | fixed32 t v =>
+          obtain ⟨h1, ht, hv⟩ := hok
+          simp only [Rec.wire, Rec.tag, Rec.wt, Rec.body, Rec.chunk, List.append_assoc] at h
+          have htag := Dec.tag_at h h1 ht (by decide)
+          have hAt := h.afterTag
+          have hval := Dec.scalar_at hAt (by simp [encFixed32, leBytes]) elFixed32 .nat v (elFixed32_enc v hv _)
+          have hAt2 := hAt.advance
+          have := ih' _ _ hAt2
+          have hstep : Dec.step (d.afterTag (encTag t wtFixed32).length) .fixed32 = ({ d.afterTag (encTag t wtFixed32).length with off := (d.afterTag (encTag t wtFixed32).length).off + (encFixed32 v).length }, .ok (.nat v), 0) := by
+            show withAlloc (Dec.scalar _ elFixed32 .nat) 0 = _
+            rw [hval]; rfl
+          have n1 : ¬ (wtFixed32 = wtVarint) := by decide
+          simp only [htag, n1, if_false, if_true, hstep, this, Rec.entryWith, Rec.entry]
+        | fixed64 t v =>
+          obtain ⟨h1, ht, hv⟩ := hok
+          simp only [Rec.wire, Rec.tag, Rec.wt, Rec.body, Rec.chunk, List.append_assoc] at h
+          have htag := Dec.tag_at h h1 ht (by decide)
+          have hAt := h.afterTag
+          have hval := Dec.scalar_at hAt (by simp [encFixed64, leBytes]) elFixed64 .nat v (elFixed64_enc v hv _)
+          have hAt2 := hAt.advance
+          have := ih' _ _ hAt2
+          have hstep : Dec.step (d.afterTag (encTag t wtFixed64).length) .fixed64 = ({ d.afterTag (encTag t wtFixed64).length with off := (d.afterTag (encTag t wtFixed64).length).off + (encFixed64 v).length }, .ok (.nat v), 0) := by
+            show withAlloc (Dec.scalar _ elFixed64 .nat) 0 = _
+            rw [hval]; rfl
+          have n1 : ¬ (wtFixed64 = wtVarint) := by decide
+          have n2 : ¬ (wtFixed64 = wtFixed32) := by decide
+          simp only [htag, n1, n2, if_false, if_true, hstep, this, Rec.entryWith, Rec.entry]
+        | len t b =>
+          obtain ⟨h1, ht, hb⟩ := hok
+          simp only [Rec.wire, Rec.tag, Rec.wt, Rec.body, Rec.chunk, List.append_assoc] at h
+          have htag := Dec.tag_at h h1 ht (by decide)
+          have hAt := h.afterTag
+          have hAt' : Dec.At (d.afterTag (encTag t wtLen).length) (pre ++ encTag t wtLen)
+              (encVarint b.length ++ b ++ wiresD rs) := by simpa using hAt
+          have hval := Dec.bytes_at hAt' hb
+          have hAt2 : Dec.At { d.afterTag (encTag t wtLen).length with off := (d.afterTag (encTag t wtLen).length).off + (encVarint b.length ++ b).length }
+              (pre ++ encTag t wtLen ++ (encVarint b.length ++ b)) (wiresD rs) := by
+            have := hAt'.advance (x := encVarint b.length ++ b)
+            simpa using this
+          have := ih' _ _ hAt2
+          have hstep : Dec.step (d.afterTag (encTag t wtLen).length) .bytes = ({ d.afterTag (encTag t wtLen).length with off := (d.afterTag (encTag t wtLen).length).off + (encVarint b.length ++ b).length }, .ok (.bytes b), 0) := by
+            show withAlloc (Dec.bytesOp _) 0 = _
+            rw [hval]; rfl
+          have n1 : ¬ (wtLen = wtVarint) := by decide
+          have n2 : ¬ (wtLen = wtFixed32) := by decide
+          have n3 : ¬ (wtLen = wtFixed64) := by decide
+          simp only [htag, n1, n2, n3, if_false, if_true, hstep, this, Rec.entryWith]
+          by_cases hs : pathsMatch strs (parent ++ [t]) = true
+          · simp [hs]
+          · have he : pathsMatch expand (parent ++ [t]) = false := by
+              rcases hleaf with hl | hl
+              · exact absurd hl hs
+              · exact hl
+            simp [hs, he]
+      | msg t kids =>
+        obtain ⟨h1, ht, hb, hs, he, hkids⟩ :
+            1 ≤ t ∧ t ≤ maxTagValue ∧ (wiresD kids).length ≤ maxFieldLen ∧
+            pathsMatch strs (parent ++ [t]) = false ∧ pathsMatch expand (parent ++ [t]) = true ∧
+            FitsAll expand strs (parent ++ [t]) kids := by simpa [DTree.Fits] using hk
+        simp only [wiresD, DTree.wire, List.append_assoc] at h
+        simp only [rendersD, DTree.render]
+        have htag := Dec.tag_at h h1 ht (by decide)
+        have hAt := h.afterTag
+        have hAt' : Dec.At (d.afterTag (encTag t wtLen).length) (pre ++ encTag t wtLen)
+            (encVarint (wiresD kids).length ++ wiresD kids ++ wiresD rs) := by simpa using hAt
+        have hval := Dec.bytes_at hAt' hb
+        have hAt2 : Dec.At { d.afterTag (encTag t wtLen).length with off := (d.afterTag (encTag t wtLen).length).off + (encVarint (wiresD kids).length ++ wiresD kids).length }
+            (pre ++ encTag t wtLen ++ (encVarint (wiresD kids).length ++ wiresD kids)) (wiresD rs) := by
+          have := hAt'.advance (x := encVarint (wiresD kids).length ++ wiresD kids)
+          simpa using this
+        have hrest := ih' _ _ hAt2
+        have hinner := ih kids (Dec.new (wiresD kids)) [] (parent ++ [t]) (indent + 1) hkids
+          (by simp [DTree.size] at hsz; omega) (Dec.new_at _)
+        have hstep : Dec.step (d.afterTag (encTag t wtLen).length) .bytes = ({ d.afterTag (encTag t wtLen).length with off := (d.afterTag (encTag t wtLen).length).off + (encVarint (wiresD kids).length ++ wiresD kids).length }, .ok (.bytes (wiresD kids)), 0) := by
+          show withAlloc (Dec.bytesOp _) 0 = _
+          rw [hval]; rfl
+        have n1 : ¬ (wtLen = wtVarint) := by decide
+        have n2 : ¬ (wtLen = wtFixed32) := by decide
+        have n3 : ¬ (wtLen = wtFixed64) := by decide
+        simp only [htag, n1, n2, n3, if_false, if_true, hstep, hs, he, hinner, hrest, Rec.entry]
+        simp
+
+/-- the whole program: `protodump -expand … -strings …` on the encoding of a tree that fits the path sets -/
+theorem dumpProto_tree (expand strs : List (List Nat)) (ks : List DTree) (h : FitsAll expand strs [] ks) :
+    dumpProto (wiresD ks) expand strs = (rendersD strs [] 0 ks, .ok) := by
+  unfold dumpProto
+  exact dump_tree expand strs _ ks _ [] [] 0 h (by have := sizesD_le_wires ks; omega) (Dec.new_at _)
+
+/-- what "fits" means in terms of the requested paths (exact matching, `pathsMatch_iff`): a field is
+    recursed into iff its full path is among the `-expand` paths and not among the `-strings` paths -/
+theorem recursed_iff (expand strs : List (List Nat)) (p : List Nat) (hp : p ≠ []) :
+    (pathsMatch strs p = false ∧ pathsMatch expand p = true) ↔ (p ∈ expand ∧ p ∉ strs) := by
+  have h1 := pathsMatch_iff expand p
+  have h2 := pathsMatch_iff strs p
+  constructor
+  · rintro ⟨hs, he⟩
+    refine ⟨(h1.mp he).2, fun hm => ?_⟩
+    have := h2.mpr ⟨hp, hm⟩
+    simp [hs] at this
+  · rintro ⟨he, hs⟩
+    refine ⟨?_, h1.mpr ⟨hp, he⟩⟩
+    cases hm : pathsMatch strs p with
+    | false => rfl
+    | true => exact absurd (h2.mp hm).2 hs
+
 /-! ## non-vacuity -/
 example : parseAnnotatedHex "08 ; tag\n 96 01\t; value".toList = some [0x08, 0x96, 0x01] := by decide
 example : (dumpProto [0x08, 0x96, 0x01] [] []).2 = .ok := by decide
+-- characters whose code point merely ends in the code of a hex digit (U+0134 -> '4', U+0661 -> 'a') are foreign
+example : parseAnnotatedHex "08 6Ĵ".toList = none := by decide
+example : parseAnnotatedHex "0١ 02".toList = none := by decide
+example : parseAnnotatedHex "08 ６4".toList = none := by decide
+-- a stray continuation byte / a truncated sequence outside a comment is foreign, inside a comment it is nothing
+example : parseAnnotatedHexBytes [0x30, 0x38, 0x80] = none := by decide
+example : parseAnnotatedHexBytes [0x30, 0x38, 0x3B, 0xC3, 0x0A, 0x36, 0x34] = some [0x08, 0x64] := by decide
+-- ... but anything goes inside a comment
+example : parseAnnotatedHex "08 ; Ĵ١\n64".toList = some [0x08, 0x64] := by decide
+
+/-! four levels deep, four sibling fields that are treated differently (raw, string, message, string): an
+    instance of `dumpProto_tree` (the hypotheses can be met), and a well-formed message that reads as hex text -/
+/-- the demo shape: 1.1.1.{1 raw, 2 string, 3 message, 4 string}, four levels deep -/
+def ladTree : List DTree :=
+  [.msg 1 [.msg 1 [.msg 1 [.leaf (.len 1 [0xDE,0xAD]), .leaf (.len 2 [0x68,0x69]), .msg 3 [.leaf (.varint 1 5)], .leaf (.len 4 [0x79,0x6F])]]]]
+def ladBytes : Bytes := [0x0A,0x14,0x0A,0x12,0x0A,0x10,0x0A,0x02,0xDE,0xAD,0x12,0x02,0x68,0x69,0x1A,0x02,0x08,0x05,0x22,0x02,0x79,0x6F]
+theorem ladTree_wire : wiresD ladTree = ladBytes := by
+  simp [ladTree, ladBytes, wiresD, DTree.wire, Rec.wire, Rec.body, Rec.chunk, Rec.tag, Rec.wt, encTag, keyOf, two64, encVarint_small, wtLen, wtVarint]
+theorem ladTree_fits : FitsAll [[1],[1,1],[1,1,1],[1,1,1,3]] [[1,1,1,2],[1,1,1,4]] [] ladTree := by
+  simp [ladTree, FitsAll, DTree.Fits, leafFits, Rec.OK, pathsMatch, pathMatches, maxTagValue, two64, maxFieldLen, wiresD, DTree.wire, Rec.wire, Rec.body, Rec.chunk, Rec.tag, Rec.wt, encTag, keyOf, two64, encVarint_small, wtLen, wtVarint]
+example : dumpProto ladBytes [[1],[1,1],[1,1,1],[1,1,1,3]] [[1,1,1,2],[1,1,1,4]] =
+    (rendersD [[1,1,1,2],[1,1,1,4]] [] 0 ladTree, .ok) := by
+  rw [← ladTree_wire]; exact dumpProto_tree _ _ _ ladTree_fits
+theorem hexish_wire : wiresD [.leaf (.varint 6 56), .leaf (.varint 6 49)] = [0x30, 0x38, 0x30, 0x31] := by
+  simp [wiresD, DTree.wire, Rec.wire, Rec.body, Rec.chunk, Rec.tag, Rec.wt, encTag, keyOf, two64, encVarint_small, wtVarint]
+example : dumpProto [0x30, 0x38, 0x30, 0x31] [] [] =
+    (Rec.entry 0 (.varint 6 56) ++ (Rec.entry 0 (.varint 6 49) ++ []), .ok) := by
+  rw [← hexish_wire]
+  exact dumpProto_tree [] [] _ (by simp [FitsAll, DTree.Fits, leafFits, Rec.OK, maxTagValue, two64])
 
 end Csproto.C20
